@@ -1092,7 +1092,7 @@ class C11(SimSpec):
                         add({"crash_at": [en["ord"], kp, "nodekill"], "cont": cont}, fl, "node_dies_in_round")
                     if is_mut:
                         add({"crash_at": [en["ord"], kp, "raise"], "cont": cont}, fl, "edquot")
-                    if is_wopen and mode in ("w", "a") and (tier == "thorough" or kp % 2 == 0):
+                    if is_wopen and mode == "w" and (tier == "thorough" or kp % 2 == 0):  # torn write: only an open that truncates can lose what was there
                         add({"crash_at": [en["ord"], kp, "torn"], "cont": cont}, fl, "torn")
                     if ev == "open" and mode == "excl" and basef.endswith(".lock"):
                         add({"crash_at": [en["ord"], kp, "lockfail"], "cont": cont}, fl, "lockfail")
